@@ -694,15 +694,32 @@ func c08Step(c *Ctx) {
 		}
 		return out
 	}
-	// the action's error
-	var actErr ssa.Value
-	ssau.Instrs(step, func(in ssa.Instruction) {
-		if ex, ok := in.(*ssa.Extract); ok && ex.Index == 1 {
-			if cl, ok := ex.Tuple.(*ssa.Call); ok && cl.Common().IsInvoke() && cl.Common().Method.Name() == "Exec" {
-				actErr = ex
+	// Step and the helpers of package core it runs the action in (not branch evaluation)
+	var stepFns []*ssa.Function
+	{
+		skip := map[*ssa.Function]bool{}
+		if cons := c.P.Func("core", "Branches", "consider"); cons != nil {
+			for _, f := range pkgClosure(cons) {
+				skip[f] = true
 			}
 		}
-	})
+		for _, f := range scope {
+			if prog.PkgOf(f) == "core" && !skip[f] {
+				stepFns = append(stepFns, f)
+			}
+		}
+	}
+	// the action's error
+	var actErr ssa.Value
+	for _, f := range stepFns {
+		ssau.Instrs(f, func(in ssa.Instruction) {
+			if ex, ok := in.(*ssa.Extract); ok && ex.Index == 1 {
+				if cl, ok := ex.Tuple.(*ssa.Call); ok && cl.Common().IsInvoke() && cl.Common().Method.Name() == "Exec" {
+					actErr = ex
+				}
+			}
+		})
+	}
 	actionFailedAt := func(b *ssa.BasicBlock) bool {
 		if actErr == nil {
 			return false
@@ -724,28 +741,42 @@ func c08Step(c *Ctx) {
 			if !((bo.Op == token.NEQ && f.True) || (bo.Op == token.EQL && !f.True)) {
 				continue
 			}
-			only := true
+			// the value tested is the action's error (or, along other ways, the nil constant: a helper's
+			// `return bs, false, nil`), so "not nil" means the action failed
+			hit, only := false, true
 			for d := range leaves(v) {
-				if d != actErr {
+				switch {
+				case d == actErr:
+					hit = true
+				case ssau.IsNilConst(d):
+				default:
 					only = false
 				}
 			}
-			if only && len(leaves(v)) > 0 {
+			if only && hit {
 				return true
 			}
 		}
 		return false
 	}
 	n := 0
-	ssau.Instrs(step, func(in ssa.Instruction) {
-		ci, ok := in.(ssa.CallInstruction)
-		if !ok || ci.Common().StaticCallee() == nil || ci.Common().StaticCallee() != addEvents {
-			return
+	var attach []ssa.CallInstruction
+	for _, f := range stepFns {
+		ssau.Instrs(f, func(in ssa.Instruction) {
+			if ci, ok := in.(ssa.CallInstruction); ok && ci.Common().StaticCallee() != nil && ci.Common().StaticCallee() == addEvents {
+				attach = append(attach, ci)
+			}
+		})
+	}
+	for _, ci := range attach {
+		site := siteInFn(step, ci)
+		if site == nil {
+			continue
 		}
 		n++
 		strideLeaves := leaves(base(ci.Common().Args[0]))
-		after := flow.ReachableFrom(ci.Block(), nil)
-		after[ci.Block()] = true
+		after := flow.ReachableFrom(site.Block(), nil)
+		after[site.Block()] = true
 		ri := 0
 		for _, b := range step.Blocks {
 			ret, ok := b.Instrs[len(b.Instrs)-1].(*ssa.Return)
@@ -769,7 +800,7 @@ func c08Step(c *Ctx) {
 				c.R.Violate("C08-R6", key, c.pos(ret), "Step can return without the stride after a successfully completed action's events were attached to it: the action's emitted messages are dropped")
 			}
 		}
-	})
+	}
 	if n == 0 {
 		c.R.Break("C08-R6: Step does not attach the action's events with Events.AddEvents")
 	}
